@@ -579,6 +579,16 @@ def check_request_stamping(rep, app):
             if not isinstance(c, ast.Call) or id(c) in dispatch_calls:
                 continue
             rc = resolve_callee(fi, c)
+            if rc is None and isinstance(c.func, ast.Attribute) and isinstance(c.func.value, ast.Name) and c.func.value.id == 'self' and fi.cls is not None:
+                # a method the class inherits from a base / mixin of the analysed tree
+                try:
+                    meth = fi.mod.repo.find_method(fi.cls, c.func.attr)
+                except Exception:
+                    meth = None
+                if meth is not None and not meth.mod.external and not isinstance(meth.node, ast.Lambda):
+                    static = any(isinstance(d, ast.Name) and d.id == 'staticmethod' for d in meth.node.decorator_list)
+                    if all(isinstance(d, ast.Name) and d.id == 'staticmethod' for d in meth.node.decorator_list):
+                        rc = (meth, not static)
             if rc is None:
                 continue
             callee, drop = rc
